@@ -29,7 +29,7 @@ func init() {
 		Assumptions: []string{"dates are labelled old/new at generation, at least 1 h from now-expiry, so the oracle never reads the clock", "TTL indexes with a partial filter and key paths that fan out over arrays of sub-documents are not generated"},
 		Batches:     func(tier string) int { return 16 },
 		Require: func(tier string) map[string]int64 {
-			return map[string]int64{"passes": 300, "docs_judged": 3000, "expired_expected": 500, "survivors_expected": 1500, "noop_passes": 50, "collections_without_ttl": 100, "array_dates": 200, "zero_second_indexes": 50, "background_passes_observed": 5, "idle_expiry_checks": 5, "compound_ttl_requests": 40, "plain_indexes_on_date_fields": 100}
+			return map[string]int64{"passes": 300, "docs_judged": 3000, "expired_expected": 500, "survivors_expected": 1500, "noop_passes": 50, "collections_without_ttl": 100, "array_dates": 200, "zero_second_indexes": 50, "background_passes_observed": 5, "idle_expiry_checks": 5, "compound_ttl_requests": 40, "plain_indexes_on_date_fields": 100, "long_interval_indexes": 40}
 		},
 		Run: runC19,
 	})
@@ -65,8 +65,13 @@ func ttlValue(r *fw.Rand, now time.Time, expire int32, c *fw.Ctx) (interface{}, 
 		return bson.A{young}, false
 	case 11:
 		c.Count("array_dates", 1)
-		if r.Bool() {
+		switch r.Intn(4) {
+		case 0:
 			return bson.A{young, old}, true
+		case 1:
+			return bson.A{old, old, young}, true // the same date twice: one index key, two positions
+		case 2:
+			return bson.A{old, "x", old}, true
 		}
 		return bson.A{"x", old, int32(5)}, true
 	case 12:
@@ -148,7 +153,10 @@ func c19Build(c *fw.Ctx, w *world, r *fw.Rand, now time.Time, forceNoExpiry bool
 				continue
 			}
 			used[p] = true
-			e := fw.Pick(r, []int32{0, 60, 86400})
+			e := fw.Pick(r, []int32{0, 60, 86400, 0, 60, 86400, 30 * 86400, 60 * 86400, 400 * 86400})
+			if e > 86400 {
+				c.Count("long_interval_indexes", 1)
+			}
 			if e == 0 {
 				c.Count("zero_second_indexes", 1)
 			}
